@@ -178,7 +178,7 @@ pub fn run(tier: Tier) -> i32 {
     let depth = tier.pick(6, 9);
     // quick: depth bounds chosen so that every system completes its bound (deterministic coverage)
     let quick_depth = |name: &str| if name.contains("fallbacks") { 6 } else { 4 };
-    let per_secs = tier.pick(14, 200);
+    let per_secs = tier.pick(14, 140);
     let mut total = BfsStats::default();
     let mut per = Vec::new();
     let mut samples: Vec<Value> = Vec::new();
@@ -209,7 +209,7 @@ pub fn run(tier: Tier) -> i32 {
         live.own_votes = true;
         let name = format!("cluster/{}", live.inner.name);
         let d = if live.inner.name.contains("equivocates") && !live.inner.name.contains("small") && tier == Tier::Quick { 2 } else { cluster_depth };
-        let limits = BfsLimits::new(d, tier.pick(600_000, 20_000_000), tier.pick(30, 120));
+        let limits = BfsLimits::new(d, tier.pick(600_000, 20_000_000), tier.pick(30, 90));
         let st = bfs(&live, &name, &limits, &report);
         println!(
             "  {}: states={} transitions={} depth_completed={} fair completions={} vote-count shapes={} capped={:?}",
